@@ -782,9 +782,9 @@ func meta(c Case) vr.Meta {
 }
 
 func TestDocx(t *testing.T) {
-	vr.Prop(t, "docx", vr.N(1200, 40000), func(rt *rapid.T) Case { return genFormat(rt, "docx") }, meta, checkCase)
+	vr.Prop(t, "docx", vr.N(1200, 20000), func(rt *rapid.T) Case { return genFormat(rt, "docx") }, meta, checkCase)
 }
 
 func TestOdt(t *testing.T) {
-	vr.Prop(t, "odt", vr.N(1200, 40000), func(rt *rapid.T) Case { return genFormat(rt, "odt") }, meta, checkCase)
+	vr.Prop(t, "odt", vr.N(1200, 20000), func(rt *rapid.T) Case { return genFormat(rt, "odt") }, meta, checkCase)
 }
